@@ -123,10 +123,18 @@ def _expand_flags(e, func, locals_, depth):
         def visit_Name(self, node):
             if depth < 2 and isinstance(node.ctx, ast.Load) and node.id in locals_:
                 d = _single_def(func, node.id)
-                if d is not None and (_is_boolean_expr(d) or _is_set_expr(d) or _is_index_abbreviation(d)):
+                if d is not None and (_is_boolean_expr(d) or _is_set_expr(d) or _is_index_abbreviation(d) or _is_attribute_abbreviation(d)):
                     return _expand_flags(clone(d), func, locals_, depth + 1)
             return node
     return T().visit(e)
+
+
+def _is_attribute_abbreviation(d) -> bool:
+    """`free = operator.free_symbols`: a name for an attribute (chain) of another name, nothing computed."""
+    cur = d
+    while isinstance(cur, ast.Attribute):
+        cur = cur.value
+    return isinstance(d, ast.Attribute) and isinstance(cur, ast.Name)
 
 
 def _is_index_abbreviation(d) -> bool:
@@ -354,7 +362,6 @@ EXPECTED = [
     ("hermitian+pairs(op)", "operator_to_BlockSeries", "ValueError",
      A("subspace_eigenvectors is not None", "hermitian", "any((isinstance(_v0, tuple) for _v0 in subspace_eigenvectors))"),
      lambda e: all(e.values()), "Hermitian operator given (right, left) pairs"),
-    ("unsupported-input", "_to_scalar_BlockSeries", "TypeError", A(), lambda e: True, "unsupported container type falls through to TypeError"),
     ("symbols-not-in-H", "_sympy_to_BlockSeries", "ValueError",
      A("any((_v0 not in operator.free_symbols for _v0 in symbols))"), lambda e: all(e.values()), "perturbative symbol absent from the Hamiltonian"),
     ("noncommutative-keys", "_symbolic_keys_to_tuples", "ValueError",
@@ -376,7 +383,46 @@ EXPECTED = [
 ]
 
 
+def _rule_input_dispatch(rep: Report, repo: Repo):
+    """_to_scalar_BlockSeries answers each supported container type and raises TypeError for anything else: evaluated per type of
+    `operator` (a rebinding `operator = _list_to_dict(operator)` makes it a dict)."""
+    from .sem import Scope, canon, outcomes
+    f = repo.find(f"{MOD}::_to_scalar_BlockSeries", RULE)
+    P = f.args.args[0].arg
+    KINDS = {"BlockSeries": ["BlockSeries"], "sympy.Expr": ["sympy.Expr"], "sympy.MatrixBase": ["sympy.MatrixBase"], "list": ["list"], "dict": ["dict"],
+             "other": []}
+    table = {}
+    for kind, names in KINDS.items():
+        def atom(n, names=names):
+            n = canon(n)
+            if isinstance(n, ast.Call) and call_name(n) == "isinstance" and len(n.args) == 2:
+                subj = n.args[0]
+                ts = [norm(x) for x in (n.args[1].elts if isinstance(n.args[1], ast.Tuple) else [n.args[1]])]
+                if norm(subj) == P:
+                    return any(t in names for t in ts)
+                if isinstance(subj, ast.Call) and call_name(subj) == "_list_to_dict":
+                    return "dict" in ts  # what _list_to_dict returns
+            return None
+        outs = set()
+        for o in outcomes(f.body, None, env={}, atom=atom, expand=False):
+            und = [norm(t_)[:50] for t_, _p in o.conds if eval_bool(t_, atom) is None]
+            if und:
+                raise AnalysisError(RULE, f"_to_scalar_BlockSeries: condition `{und[0]}` not understood")
+            if o.kind == "raise":
+                outs.add("raise " + norm(o.value).split("(")[0])
+            elif o.kind == "return":
+                outs.add("return")
+            else:
+                outs.add("falls through")
+        table[kind] = sorted(outs)
+    want = {k: (["raise TypeError"] if k == "other" else ["return"]) for k in KINDS}
+    bad = {k: v for k, v in table.items() if v != want[k]}
+    rep.check(not bad, RULE, f"{MOD}::_to_scalar_BlockSeries guard `unsupported-input`: every supported container type is answered, anything else -> TypeError",
+              f"(type of the input) -> outcome; wrong: {bad}" if bad else str(table), repo.loc(MOD, f))
+
+
 def rule_guards(rep: Report, repo: Repo):
+    _rule_input_dispatch(rep, repo)
     inv_count = 0
     by_func = {}
     matched: dict = {}
@@ -741,13 +787,18 @@ def rule_symbolic_hermiticity(rep: Report, repo: Repo):
     rs = [(r, path_condition(r, ev)) for r, e in raises_in(ev) if e == "ValueError"]
     ok = False
     if len(rs) == 1:
+        tested_names = {norm(n.value) for t, _p in rs[0][1] for n in ast.walk(t) if isinstance(n, ast.Attribute) and n.attr == "is_hermitian"}
+        if len(tested_names) != 1:
+            raise AnalysisError(R, "op_eval: the expression whose Hermiticity is tested was not found")
+        EX = tested_names.pop()  # the local that holds the tested coefficient (what it is, is decided below)
+
         def classify(a):
             t, pol = canon_atom(a)
             if t == "check_hermitian":
                 return ("check", pol)
-            if t == "expr.is_hermitian is False":
+            if t in (f"{EX}.is_hermitian is False", "L.is_hermitian is False"):
                 return ("nonhermitian", pol)
-            if t == "expr.atoms(Operator)":
+            if t in (f"{EX}.atoms(Operator)", "L.atoms(Operator)"):
                 return ("has_operators", pol)
             return None
         ok = True
